@@ -277,7 +277,11 @@ func runC01(c *Ctx) {
 			// it was before the replay; 20 s at most - a uTP dial to a silent peer gives up after 10-15 s and the
 			// goroutine that then panics is what a crash replay is looking for)
 			time.Sleep(1500 * time.Millisecond)
-			for w := 0; w < 185 && runtime.NumGoroutine() > replayBase; w++ {
+			maxWait := 185
+			if v, err := strconv.Atoi(os.Getenv("VERIF_REPLAY_WAIT_S")); err == nil && v > 0 {
+				maxWait = v * 10
+			}
+			for w := 0; w < maxWait && runtime.NumGoroutine() > replayBase; w++ {
 				time.Sleep(100 * time.Millisecond)
 			}
 			if len(live) > 0 {
